@@ -69,6 +69,18 @@ CLAIMED.update({
             "random histories with synthetic frameworks, failing factories, imports and nested with-blocks",
             "Coq theorems on the specification + model/implementation correspondence on random histories", "DESIGN.md 3/C11"),
 })
+CLAIMED.update({
+    "C06": ("Theorem (Props/C06.v): with numbers compared together with their type - which Gen/GenFreeze.v reads off lru_cache.py - equal cache "
+            "keys are identical frozen arguments, so any outcome that is a function of the frozen arguments is the same for a hit and a miss; "
+            "the untyped comparison of the pinned tree is refuted (2 vs 2.0). Histories of calls (ops, solve_*, graph=True, with-blocks, failing "
+            "calls of every stage, equal-but-not-identical arguments) run in one process are compared call by call with pristine forked processes",
+            "Coq theorem on the cache key + warm-vs-pristine differential histories", "DESIGN.md 3/C06"),
+    "C07": ("Theorems (Props/C07.v) on the reference semantics: a number is an axis with a name of its own (injective renaming never moves an "
+            "element), regrouping with parentheses is irrelevant; every other documented shorthand (implicit output, automatic brackets, "
+            "anonymous/named ellipsis, keepdims, adjacent brackets, redundant spaces, rearrange, unit coordinate bracket) is decided by "
+            "executing (short, long) pairs derived from generated calls on identical data",
+            "Coq theorems on the spec + pairwise short/long correspondence", "DESIGN.md 3/C07"),
+})
 EXTRA_NOTES = {"C10": "Partial: pre-emption inside C code (functools.cache, dict operations) and the tracing/compilation part of a call are not scheduled; only the registry methods are. ",
                "C11": "The refinement theorem model-get = select is not yet proved for all histories (stated in DESIGN.md); the model is tied to the code by correspondence. "}
 
